@@ -60,3 +60,33 @@ func VxC09AggregatedFilterHasNoFalseNegatives() {
 		vx.Assert(out.Test(uint(b)) == alloc.Test(uint(b)), "both-query-forms-agree")
 	}
 }
+
+// C09-H7b: a BUSY block - hundreds of distinct emitters / keys, a quarter of its 8192 bloom bits set - is
+// indexed completely: every one of its keys finds the block through the aggregated index ("no matching event
+// is ever omitted because of the bloom-filter index"), whatever buffer sizes the insertion uses. Real bloom
+// hashing of 60 / 260 / 700 concrete keys (the block's bloom then has roughly 350 / 1400 / 3000 bits set).
+func VxC09BusyBlockIsIndexedCompletely() {
+	vx.Bound("one window starting at block 0; one block (number 0, 5 or 8191) whose bloom holds 60, 260 or 700 concrete 32-byte keys; every key queried through BlocksForKeys")
+	nkeys := []int{60, 260, 700}[vx.Choice("keys-in-the-block", 3)]
+	block := []uint64{0, 5, NumBlocksPerFilter - 1}[vx.Choice("block", 3)]
+	keys := make([][]byte, nkeys)
+	bl := vxEmptyBloom()
+	for i := range keys {
+		k := make([]byte, 32)
+		k[31], k[30], k[0] = byte(i), byte(i>>8), byte(7*i+1)
+		keys[i] = k
+		bl.Add(k)
+	}
+	if bl.BitSet().Count() > 1024 {
+		vx.Cover("more-than-1024-bloom-bits-set")
+	}
+	f := NewAggregatedFilter(0)
+	vx.Assert(f.Insert(bl, block) == nil, "insert-in-range")
+	missing := 0
+	for i := range keys {
+		if !f.BlocksForKeys([][]byte{keys[i]}).Test(uint(block)) {
+			missing++
+		}
+	}
+	vx.Assert(missing == 0, "every-key-of-a-busy-block-finds-the-block")
+}
